@@ -6,7 +6,7 @@ cat <<P
 You are helping to evaluate a verification effort by acting as an independent "bug seeder" for the open-source Go project gittuf (a TUF-inspired security layer for Git: signed Reference State Log (RSL) + policy verification).
 
 Your private scratch copy of the repository is a git worktree at: $wt
-Work ONLY inside $wt (source edits) and $wt-out (deliverables). Never read or write /repo or /verif. The sandbox is offline; start every shell command with \`. /tmp/wt/env.sh;\` (it puts the right Go toolchain on PATH and sets the offline flags). The first build is slow (minutes); the whole test suite (\`. /tmp/wt/env.sh; cd $wt && go test -vet=off -count=1 -timeout 90m ./...\`) takes about 5 minutes on an idle machine but the machine is shared with other jobs, so it can take 20-40 minutes: run it in the background, redirect its output to a file and wait for it; a package that only fails with 'test timed out' is load, not your change — re-run that package alone.
+Work ONLY inside $wt (source edits) and $wt-out (deliverables). Never read or write /repo or /verif. The sandbox is offline; start every shell command with \`. /tmp/wt/env.sh;\` (it puts the right Go toolchain on PATH and sets the offline flags). The first build is slow (minutes); the whole test suite (\`. /tmp/wt/env.sh; cd $wt && go test -vet=off -count=1 -timeout 90m ./...\`) takes about 10 minutes on an idle machine (internal/policy ≈ 4 min, experimental/gittuf ≈ 7 min) but the machine is shared with other jobs, so it can take 30-60 minutes: while developing a mutant run only the tests of the packages you touched and of the packages importing them; run the FULL suite exactly once per finished mutant, in the background with its output redirected to a file, and wait for it (poll with sleep); a package that only fails with 'test timed out' is load, not your change — re-run that package alone with a longer -timeout.
 
 Here is ONE semantic property that gittuf is supposed to satisfy (JSON record):
 
